@@ -10,6 +10,7 @@ import (
 	"os/exec"
 	"path/filepath"
 	"runtime"
+	"runtime/pprof"
 	"sort"
 	"strconv"
 	"strings"
@@ -231,6 +232,14 @@ func WorkerMain(p *Prop, tier string, shard, nshards int, out string, deadline t
 	}
 
 	_ = os.Remove(out + ".cur")
+
+	if hp := os.Getenv("VERIF_HEAPPROF"); hp != "" {
+		if f, err := os.Create(hp); err == nil {
+			runtime.GC()
+			_ = pprof.WriteHeapProfile(f)
+			f.Close()
+		}
+	}
 }
 
 // nextCell hands out cell indices to the workers of one check: a counter file next to the result files,
@@ -362,7 +371,7 @@ func Coordinate(p *Prop, tier string, verifDir string, workers int) int {
 			}
 
 			cmd := exec.Command(args[0], args[1:]...)
-			cmd.Env = append(os.Environ(), "GOMAXPROCS=1")
+			cmd.Env = append(os.Environ(), "GOMAXPROCS=1", "GOMEMLIMIT=2GiB", "GOGC=50")
 
 			if p.Race {
 				logp := filepath.Join(tmp, fmt.Sprintf("race%d", i))
